@@ -224,11 +224,21 @@ def main() -> int:
     # longest first, for balance
     jobs.sort(key=lambda j: -sum(3 if a["op"] in ("SaveReopen", "LoadLexical") else 1 for a in j[1]))
     traces = E.pmap(C.run_trace, jobs, procs=16, chunk=8)
-    inits = {}
+    # the readings of a package just opened are a function of the package: every run that opens the same initial package observes the
+    # same initial state (the most frequent observation is taken as the package's; a run that saw something else - values left over
+    # from another presentation handled in the same process - is a rejected trace)
+    import collections
+    seen_inits: dict = {}
     for t in traces:
-        k, s = t["kind"], t.pop("init")
-        if inits.setdefault(k, s) != s:
-            raise E.MachineryError("initial package %r projected differently in two runs" % k)
+        seen_inits.setdefault(t["kind"], collections.Counter())[json.dumps(t["init"], sort_keys=True)] += 1
+    inits = {k: json.loads(c.most_common(1)[0][0]) for k, c in seen_inits.items()}
+    for t in traces:
+        s = t.pop("init")
+        if s != inits[t["kind"]]:
+            diff = sorted(k for k in set(s) | set(inits[t["kind"]]) if s.get(k) != inits[t["kind"]].get(k)) if isinstance(s, dict) else []
+            rep.reject("OpenedPackageReadsAsItsDocument@open[%s]" % t["kind"],
+                       {"module": "CoreProps", "id": t["id"], "kind": t["kind"], "observed_init": s, "package_init": inits[t["kind"]]},
+                       "a run that opened the initial package %r read %s differently from the other runs that opened it" % (t["kind"], diff[:6]))
     phase["replay_s"] = round(time.time() - t0, 1)
     print("PHASE replay %.1fs" % phase["replay_s"], flush=True)
     t0 = time.time()
